@@ -16,7 +16,7 @@ use fn_graph::{DataAccessDyn, FnRef, TypeIds};
 
 use crate::spec::{Action, GateSpec, RunSpec, Step, N_TYPES};
 
-pub const MAX_RUNS: usize = 4;
+pub const MAX_RUNS: usize = 8;
 
 // ---------------------------------------------------------------------------
 // The function type stored in the graph.
@@ -58,29 +58,42 @@ pub struct SimFn {
     pub id: usize,
     pub reads: u16,
     pub writes: u16,
+    pub style: u8,
     /// bumped by the `mut` APIs (user-visible mutation through `&mut F`)
     pub visits: u32,
 }
 
-impl DataAccessDyn for SimFn {
-    fn borrows(&self) -> TypeIds {
-        let mut t = TypeIds::new();
-        for k in 0..N_TYPES {
-            if self.reads & (1 << k) != 0 {
-                t.push(type_id_of(k));
+impl SimFn {
+    fn list(&self, mask: u16) -> TypeIds {
+        let mut ks: Vec<usize> = (0..N_TYPES).filter(|k| mask & (1 << k) != 0).collect();
+        if self.style & 2 != 0 {
+            ks.reverse();
+        }
+        if self.style & 4 != 0 {
+            if let Some(&first) = ks.first() {
+                ks.push(first);
             }
+        }
+        let mut t = if self.style & 1 != 0 {
+            TypeIds::with_capacity(16)
+        } else {
+            TypeIds::new()
+        };
+        for k in ks {
+            t.push(type_id_of(k));
         }
         t
     }
+}
+
+impl DataAccessDyn for SimFn {
+    fn borrows(&self) -> TypeIds {
+        let also = if self.style & 8 != 0 { self.writes } else { 0 };
+        self.list(self.reads | also)
+    }
 
     fn borrow_muts(&self) -> TypeIds {
-        let mut t = TypeIds::new();
-        for k in 0..N_TYPES {
-            if self.writes & (1 << k) != 0 {
-                t.push(type_id_of(k));
-            }
-        }
-        t
+        self.list(self.writes)
     }
 }
 
@@ -143,6 +156,8 @@ pub enum Ev {
     Interrupt { run: usize, delivered: bool },
     SenderDrop { run: usize },
     Abort { run: usize },
+    /// an FnRef of an earlier, dropped stream is dropped during this run
+    CarriedRefDrop { run: usize, slot: usize },
     Return { run: usize, outcome: OutcomeRec },
     Panic { run: usize, msg: String },
     /// pending, no wake-up scheduled, nothing external left that could wake it
@@ -341,6 +356,9 @@ pub struct RunState {
     pub signals_left: u8,
     pub sender_dropped: bool,
     pub held: Vec<(usize, FnRef<'static, SimFn>)>,
+    /// FnRefs left over from the previous run's stream (None = empty slot)
+    pub carried: Vec<Option<FnRef<'static, SimFn>>>,
+    pub carried_done: Vec<bool>,
     pub held_finish: Vec<(usize, u64)>,
     pub vnow: u64,
     pub polls_since_external: usize,
